@@ -432,6 +432,9 @@ func (r *Runner) Run(scripts []*Script) []*ObResult {
 		}
 	}
 	axioms := r.vc.pureAxiomsByName()
+	for n, ax := range MemberAxioms() {
+		axioms[n] = ax
+	}
 	for _, sc := range scripts {
 		sc.Structs = structs
 		var sb strings.Builder
@@ -801,6 +804,14 @@ func (r *Runner) retry(header string, res *ObResult) {
 			res.Detail = rr.detail
 		}
 	}
+	// last resort against load-induced time-outs: the primary solver once more with four times the budget
+	// (the number of such attempts per obligation name is bounded by the caller)
+	if !res.Ob.ExpectSat {
+		rr, _ := r.single(header, res, r.Primary, 4*r.TimeoutMs, false)
+		if rr.status == "unsat" {
+			res.Status, res.Solver, res.Detail = rr.status, r.Primary, rr.detail
+		}
+	}
 }
 
 func (r *Runner) crossCheck(header string, results []*ObResult) {
@@ -810,23 +821,30 @@ func (r *Runner) crossCheck(header string, results []*ObResult) {
 	}
 	sem := make(chan struct{}, r.Workers)
 	var wg sync.WaitGroup
-	// cross-check at most one instance per obligation name plus a sample, to bound cost
+	// cross-check one instance per obligation name, at most 400 per run and 10 s each, to bound cost (the old
+	// z3 is much slower than the primary on some goals; a time-out of the second solver is not a disagreement)
 	seen := map[string]int{}
+	total := 0
+	crossTimeout := r.TimeoutMs
+	if crossTimeout > 10000 {
+		crossTimeout = 10000
+	}
 	for _, res := range results {
-		if res.Status != "unsat" || res.Ob.ExpectSat {
+		if res.Status != "unsat" || res.Ob.ExpectSat || res.Solver == "constant-folding" {
 			continue
 		}
 		key := res.Ob.Func + "/" + res.Ob.Name
 		seen[key]++
-		if seen[key] > 3 {
+		if seen[key] > 1 || total >= 400 {
 			continue
 		}
+		total++
 		wg.Add(1)
 		sem <- struct{}{}
 		go func(res *ObResult) {
 			defer wg.Done()
 			defer func() { <-sem }()
-			rr, _ := r.single(header, res, second, r.TimeoutMs, false)
+			rr, _ := r.single(header, res, second, crossTimeout, false)
 			if rr.status == "unsat" {
 				res.Cross = second
 			} else if rr.status == "sat" {
